@@ -594,6 +594,8 @@ class Interp:
             return f.fn(self, args, kwargs)
         if isinstance(f, UFun):
             return self.ops.call_ufun(self, f, args, kwargs, node)
+        if isinstance(f, (Poly, Tens, int, Fr, str, tuple, list, dict)) or f is None:
+            raise RepoRaise("TypeError", node, self.cur_file(), f"'{type(f).__name__}' object is not callable")
         raise self.err(f"cannot call {f!r}", node)
 
     def instantiate(self, cls, args, kwargs, node=None):
@@ -940,6 +942,8 @@ class Interp:
         except alg.ZeroDiv as e:
             raise RepoRaise("ZeroDivision", n, self.cur_file(), f"{e} in `{ast.unparse(n)[:120]}` (inf/nan in array code, ZeroDivisionError in Python arithmetic)")
         except (Unsupported, AlgError) as e:
+            if type(e).__name__ == "NoneOperand":
+                raise RepoRaise("TypeError", n, self.cur_file(), f"None used as a number in `{ast.unparse(n)[:120]}`")
             raise self.err(f"{type(e).__name__}: {e} in `{ast.unparse(n)[:120]}`", n)
         except ShapeError as e:
             if not getattr(e, "_loc", None):
@@ -964,7 +968,12 @@ class Interp:
             pass
         if n.id in self.ops.BUILTINS:
             return Builtin(n.id)
-        raise self.err(f"unresolved name {n.id}", n)
+        import builtins as _b
+
+        if hasattr(_b, n.id):
+            raise self.err(f"builtin {n.id} has no transfer function", n)
+        # not a local, global, imported or builtin name: Python raises NameError when this expression is evaluated
+        raise RepoRaise("NameError", n, self.cur_file(), f"name '{n.id}' is not defined")
 
     def e_Tuple(self, n, env):
         return tuple(self._elts(n.elts, env))
